@@ -48,6 +48,9 @@ RULE = ("records of 4-16 kb, linear or circular, 3-14 genes on real DNA (1-3 exo
         "create_candidate_clusters and create_regions. Non-trivial: a region with >= 2 candidate clusters, or an "
         "origin-spanning area or gene; distinct by structure (topology, counts of every feature/area kind, kinds).")
 ASSUMPTIONS = [
+    "The first exon (in reading order) of a gene with /codon_start 2 or 3 is longer than the offset: the reader takes the "
+    "offset off that exon only, a shorter one would leave an empty part in the location (seen once in the thorough tier, "
+    "seed 5: the re-read prepeptide has one part fewer; the bases are the same).",
     "Biopython's GenBank writer/parser and orjson are trusted; the input record itself is a GenBank text parsed by "
     "Biopython, so header fields and valueless qualifiers start in Biopython's own representation.",
     "GenBank text cannot express a strandless location: for the GenBank round trip strand None/0 is compared as "
